@@ -479,7 +479,9 @@ class Sim:
                 # the caller passes the unperturbed blocks through `data=`: that dictionary stays the caller's
                 self.user_data = {(i, i, *inp.zero_o): inp.blocks[(i, i, *inp.zero_o)] for i in range(inp.nb)}
                 self.user_data_keys = sorted(self.user_data)
-            self.H = BlockSeries(eval=hcb, data=self.user_data, shape=(inp.nb, inp.nb), n_infinite=inp.npert, name="Huser")
+            dn = tuple(f"alpha_{k}" for k in range(inp.npert)) if world.get("dimnames") else None
+            self.H = BlockSeries(eval=hcb, data=self.user_data, shape=(inp.nb, inp.nb), n_infinite=inp.npert, name="Huser",
+                                 dimension_names=dn)
             self.h_is_series = True
         elif fmt in ("scalar_idx", "scalar_vecs", "implicit"):
             if fmt == "implicit":
@@ -489,7 +491,8 @@ class Sim:
                 index = tuple(int(i) for i in index)
                 return env.h_call(index, index, lambda: inp.full.get(index, zero))
 
-            self.H = BlockSeries(eval=hcb, shape=(), n_infinite=inp.npert, name="Huser")
+            dn = tuple(f"alpha_{k}" for k in range(inp.npert)) if world.get("dimnames") else None
+            self.H = BlockSeries(eval=hcb, shape=(), n_infinite=inp.npert, name="Huser", dimension_names=dn)
             self.h_is_series = True
         elif fmt in ("dict", "list"):
             full = dict(inp.full)
@@ -641,8 +644,16 @@ class Sim:
             Ht, U, Ui = out
             derived["d0"] = cauchy_dot_product(Ui, U, operator=env.mm, hermitian=bool(spec["herm"] and spec.get("d0_herm")))
             derived["d2"] = cauchy_dot_product(U, Ht, Ui, operator=env.mm)
-            if self.w["fmt"] == "blocked" and spec.get("chain") is None:
-                derived["d1"] = cauchy_dot_product(Ui, self.H, U, operator=env.mm)
+            if has_d1(self.w, spec):
+                if self.w["fmt"] == "blocked":
+                    Hb = self.H
+                else:
+                    # the caller normalises the same input with the public helper (shares the input objects)
+                    from pymablock import operator_to_BlockSeries
+
+                    okw = {k: v for k, v in self.kw.items() if k in ("subspace_indices", "subspace_eigenvectors", "symbols")}
+                    Hb = operator_to_BlockSeries(self.H, hermitian=bool(spec["herm"]), **okw)
+                derived["d1"] = cauchy_dot_product(Ui, Hb, U, operator=env.mm)
         self.comps[c] = {"out": out, "derived": derived}
 
     def _build_tracer(self, c, spec):
@@ -693,7 +704,7 @@ class Sim:
         if not self.w.get("derived"):
             return []
         names = ["d0", "d2"]
-        if self.w["fmt"] == "blocked" and spec.get("chain") is None:
+        if has_d1(self.w, spec):
             names.append("d1")
         return names
 
@@ -720,11 +731,15 @@ def internal_names(herm):
     return _INTERNAL[herm]
 
 
+def has_d1(world, spec):
+    return spec.get("chain") is None and world["fmt"] != "implicit"
+
+
 def comp_names(world, c):
     spec = world["comps"][c]
     names = list(SERIES)
     if world.get("derived"):
-        names += ["d0", "d2"] + (["d1"] if (world["fmt"] == "blocked" and spec.get("chain") is None) else [])
+        names += ["d0", "d2"] + (["d1"] if has_d1(world, spec) else [])
     if world.get("internals"):
         names += internal_names(bool(spec["herm"]))
         if world["fmt"] == "implicit":
@@ -1385,7 +1400,7 @@ class GraphProp:
              "p_zero_block": r.choice([0.0, 0.0, 0.3, 0.6]), "deg": r.random() < 0.25,
              "complex_e": r.random() < 0.4, "derived": r.random() < profile.get("p_derived", 0.5),
              "internals": r.random() < profile.get("p_internals", 0.5), "h_data": r.random() < 0.3,
-             "symbols": r.random() < 0.2, "sectors": bool(nb >= 3 and domain in ("dense", "sparse") and r.random() < 0.25),
+             "symbols": r.random() < 0.2, "dimnames": r.random() < 0.2, "sectors": bool(nb >= 3 and domain in ("dense", "sparse") and r.random() < 0.25),
              "cap": profile.get("max_total", {1: 4, 2: 3, 3: 2})[npert] if domain != "sym" else 3}
         if fmt == "scalar_vecs":
             w["real"] = False
